@@ -222,6 +222,10 @@ _INS_KINDS = [
     (r'^broadcast use\b', 'broadcast-use'), (r'^else\s*\{\s*proof\s*\{', 'proof-block-in-new-else'),
     (r'^(\{\s*let __\w+ =\s*)+$', 'ghost-naming-wrapper'), (r'^\}?\s*;\s*proof\s*\{.*\}\s*__\w+\s*\}$', 'ghost-naming-wrapper'),
     (r'^:\s*&?\s*[\w:<>&\' ]+$', 'closure-param-type'),
+    # ghost step counter (unit cost): the function additionally returns an erased, zero-sized Ghost<nat>
+    (r'^->\s*\(\s*\w+\s*:\s*Ghost<', 'ghost-result'), (r'^let Ghost\(\w+\) =$', 'ghost-result-binding'), (r'^Ghost\(\w+\)$', 'ghost-result'),
+    (r'^, Ghost', 'ghost-result'), (r'^\(\s*\w+\s*:\s*\($', 'named-return'),
+    (r'^\{\s*proof\s*\{.*\}\s*let Ghost\(\w+\) =$', 'ghost-result-binding'), (r'^;\s*proof\s*\{.*\}\s*\}$', 'proof-block'),
     (r'^#\[verifier::', 'verifier-attribute'), (r'^#\[verus_spec', 'verifier-attribute'),
 ]
 
